@@ -8,6 +8,7 @@ import (
 	"os"
 	"path/filepath"
 	"runtime"
+	"sync"
 	"sort"
 	"strings"
 	"time"
@@ -260,6 +261,65 @@ func runCheck(repo, verif, prop, tier string, keep bool, only string, verbose bo
 		}
 		o.Result = solveScript(tmp, fmt.Sprintf("o%04d_%s", i, trunc2(sanitize(o.Name), 80)), o.Script, to, nil)
 	})
+	// an obligation that ran into the time limit (rather than coming back "unknown" at once)
+	// gets one more run with a longer limit: a loaded machine must not turn into an alarm
+	var retry []int
+	for i, o := range obls {
+		if !o.ExpectSat && o.Result.Status == "unknown" && o.Kind != "nonblocking" && o.Kind != "contract-stale" && o.Result.Time >= float64(timeout)-1.5 {
+			retry = append(retry, i)
+		}
+	}
+	if len(retry) > 0 && len(retry) <= 24 {
+		parallelDo(len(retry), workers, func(k int) {
+			o := obls[retry[k]]
+			r := solveScript(tmp, fmt.Sprintf("r%04d_%s", retry[k], trunc2(sanitize(o.Name), 80)), o.Script, timeout*3, nil)
+			if r.Status == "unsat" || r.Status == "sat" {
+				o.Result = r
+			}
+		})
+	}
+	// thorough tier: every discharged obligation is put to an independent second solver
+	// (cvc5 against the z3 family and vice versa) and to z3 with two more random seeds;
+	// "unknown" is recorded, a disagreement (sat against unsat) fails the obligation
+	confirmed, secondUnknown, seedRuns, seedUnsat := 0, 0, 0, 0
+	var disagreements []string
+	if tier == "thorough" {
+		var mu sync.Mutex
+		parallelDo(len(obls), workers, func(i int) {
+			o := obls[i]
+			if o.ExpectSat || o.Result.Status != "unsat" {
+				return
+			}
+			other := "cvc5"
+			if o.Result.Backend == "cvc5" {
+				other = "z3-new"
+			}
+			r := confirmWith(tmp, fmt.Sprintf("c%04d", i), o.Script, other, 0, 30)
+			s1 := confirmWith(tmp, fmt.Sprintf("s%04da", i), o.Script, "z3-new", 1+seedEnv(), 30)
+			s2 := confirmWith(tmp, fmt.Sprintf("s%04db", i), o.Script, "z3", 2+seedEnv(), 30)
+			mu.Lock()
+			defer mu.Unlock()
+			switch r {
+			case "unsat":
+				confirmed++
+			case "unknown":
+				secondUnknown++
+			case "sat":
+				disagreements = append(disagreements, o.Name+": "+o.Result.Backend+" unsat, "+other+" sat")
+				o.Result.Status = "disagreement"
+			}
+			for _, sr := range []string{s1, s2} {
+				seedRuns++
+				if sr == "unsat" {
+					seedUnsat++
+				}
+				if sr == "sat" {
+					disagreements = append(disagreements, o.Name+": sat under another random seed")
+					o.Result.Status = "disagreement"
+				}
+			}
+		})
+	}
 	// classify
 	known := readKnownFindings(filepath.Join(verif, "known-findings.txt"))
 	var reports []oblReport
@@ -374,6 +434,8 @@ func runCheck(repo, verif, prop, tier string, keep bool, only string, verbose bo
 			"package_load_s": round3(loadS), "samples": samples, "havoc_sites": havoc,
 			"vacuity_checks": vacChecks, "known_findings_hit": knownHit, "bounded": []string{},
 			"undischarged": failedNames(failed),
+			"second_solver_confirmed": confirmed, "second_solver_unknown": secondUnknown, "solver_disagreements": disagreements,
+			"random_seed_runs": seedRuns, "random_seed_runs_unsat": seedUnsat,
 		},
 		"assumptions": assumptions,
 	}
